@@ -153,8 +153,23 @@ static const char *v_indextoname(unsigned int idx, char *buf, size_t len)
   strcpy(buf, n);
   return buf;
 }
-static unsigned int s_nametoindex(const char *name, void *) { return v_nametoindex(name); }
-static const char  *s_indextoname(unsigned int idx, char *buf, size_t len, void *) { return v_indextoname(idx, buf, len); }
+// The application's own interface table (installed with its socket functions) knows one interface more than the
+// operating system's (the interposed if_nametoindex / if_indextoname): vnet0 <-> 7. A channel that resolves interfaces
+// through anything but its own callbacks loses servers bound to it.
+static unsigned int s_nametoindex(const char *name, void *)
+{
+  if (name && !strcmp(name, "vnet0")) return 7;
+  return v_nametoindex(name);
+}
+static const char *s_indextoname(unsigned int idx, char *buf, size_t len, void *)
+{
+  if (idx == 7) {
+    if (len < 6) return nullptr;
+    strcpy(buf, "vnet0");
+    return buf;
+  }
+  return v_indextoname(idx, buf, len);
+}
 
 void install_sockfuncs(ares_channel_t *ch)
 {
